@@ -26,9 +26,11 @@ fn nk(s: &str) -> Kind { Kind::Named(s.to_string()) }
 fn qlangs() -> Vec<QLang> {
     vec![
         QLang { name: "stmts",
-            roots: vec![nk("binary"), nk("call"), nk("let_stmt"), nk("block"), Kind::AnyNamed, Kind::Any, Kind::Anon("+".into()), Kind::Error, Kind::Missing(None), Kind::Missing(Some(("identifier".into(), true))), Kind::Missing(Some((";".into(), false))), Kind::Super("_expr".into()), Kind::SuperSub("_expr".into(), "binary".into())],
+            roots: vec![nk("binary"), nk("call"), nk("let_stmt"), nk("block"), nk("args"), Kind::AnyNamed, Kind::Any, Kind::Anon("+".into()), Kind::Error, Kind::Missing(None), Kind::Missing(Some(("identifier".into(), true))), Kind::Missing(Some((";".into(), false))), Kind::Super("_expr".into()), Kind::SuperSub("_expr".into(), "binary".into())],
             child_kinds: vec![Pat::new(nk("identifier")), Pat::new(nk("number")), Pat::new(nk("binary")), Pat::new(Kind::AnyNamed), Pat::new(Kind::Any), Pat::new(Kind::Anon("+".into())), Pat::new(Kind::Anon(";".into())), Pat::new(nk("comment")), Pat::new(nk("name")),
-                              Pat::new(nk("paren")).child(Pat::new(nk("identifier")).cap("n1")), Pat::new(nk("args")).child(Pat::new(nk("number")).cap("n1")), Pat::new(Kind::Super("_expr".into()))],
+                              Pat::new(nk("paren")).child(Pat::new(nk("identifier")).cap("n1")), Pat::new(nk("args")).child(Pat::new(nk("number")).cap("n1")), Pat::new(Kind::Super("_expr".into())),
+                              // a supertype pattern with a child of its own, below another pattern node
+                              Pat::new(Kind::Super("_expr".into())).child(Pat::new(nk("number")).cap("n1")), Pat::new(Kind::Super("_expr".into())).child(Pat::new(nk("identifier")).cap("n1"))],
             fields: vec!["left", "right", "value", "fn", "name", "stmt"], supertype: Some("_expr") },
         QLang { name: "arith",
             roots: vec![nk("binary"), nk("call"), nk("paren"), Kind::AnyNamed, Kind::Error, Kind::Missing(None)],
@@ -138,8 +140,22 @@ fn family(q: &QLang) -> Vec<Pat> {
             } }
         } }
     }
+    // the same one-child patterns with a capture on the root ONLY: which nodes carry captures decides how the cursor may
+    // share, split and give up states (a state without captures below a step cannot be told from its copies)
+    let mut bare = vec![];
+    for p in &out {
+        if p.children.len() == 1 && p.children[0].alts.len() == 1 && !p.has_quantifier() && p.neg_fields.is_empty() {
+            let mut q = p.clone();
+            strip_inner_captures(&mut q);
+            bare.push(q);
+        }
+    }
+    out.extend(bare);
     out
 }
+
+fn strip_inner_captures(p: &mut Pat) { for e in p.children.iter_mut() { for a in e.alts.iter_mut() { a.capture = None; strip_inner_captures(a); } } }
+fn has_uncaptured_inner(p: &Pat) -> bool { p.children.iter().any(|e| e.alts.iter().any(|a| a.capture.is_none() || has_uncaptured_inner(a))) }
 
 fn make_mandatory(p: &Pat) -> Pat {
     let mut q = p.clone();
@@ -284,7 +300,8 @@ pub fn worker(ctx: &Ctx, res: &mut ShardResult) {
                         }
                         if complete {
                             let got_set = qref::distinct(&got);
-                            if got_set.len() != got.len() { res.violation("binding-returned-twice", format!("query {:?} on {:?}: {} matches but only {} distinct bindings", src, String::from_utf8_lossy(text), got.len(), got_set.len()), case_json(ql.name, &src, text)); }
+                            // (with uncaptured pattern nodes several assignments give one and the same binding)
+                            if got_set.len() != got.len() && !has_uncaptured_inner(p) { res.violation("binding-returned-twice", format!("query {:?} on {:?}: {} matches but only {} distinct bindings", src, String::from_utf8_lossy(text), got.len(), got_set.len()), case_json(ql.name, &src, text)); }
                             if let Some(missing) = want_set.iter().find(|w| !got_set.contains(*w)) {
                                 res.violation("binding-missing", format!("query {:?} on {:?}: documented semantics give binding {:?} which was not returned (returned {}; tree {})", src, String::from_utf8_lossy(text), missing, got.len(), xt.sexp(&info.language)), case_json(ql.name, &src, text));
                             }
